@@ -248,19 +248,17 @@ func writeFacts(path string) error {
 	var b strings.Builder
 	b.WriteString("/- GENERATED by harness/cmd/c14 -facts from the source tree on every run. Do not edit, do not commit. -/\n")
 	b.WriteString("namespace ScVerif.Generated.C14\n\n")
-	b.WriteString("structure Triple where\n  key : String\n  getReadMask : Bool\n  updateMask : Bool\n  pullReadMask : Bool\n  pullUpdatesOnly : Bool\n  pullEchoesName : Bool\n  deriving Repr\n\n")
-	b.WriteString("def Triple.canonical (t : Triple) : Bool :=\n  t.getReadMask && t.updateMask && t.pullReadMask && t.pullUpdatesOnly && t.pullEchoesName\n\n")
 	b.WriteString("def discoveredServers : List String := " + leanList(discovered) + "\n\n")
 	b.WriteString("def drivenServers : List String := " + leanList(driven) + "\n\n")
-	b.WriteString("def triples : List Triple := [\n")
-	for i, t := range facts {
-		sep := ","
-		if i == len(facts)-1 {
-			sep = ""
-		}
-		fmt.Fprintf(&b, "  { key := %s, getReadMask := %v, updateMask := %v, pullReadMask := %v, pullUpdatesOnly := %v, pullEchoesName := %v }%s\n",
-			leanStr(t.Key), t.GetMask, t.UpdMask, t.PullMask, t.PullUO, t.PullName, sep)
+	// the Get/Update/Pull method trios the server types declare: names only. How a method translates its request
+	// (options through locals, slices, helpers ...) is NOT matched syntactically: that the translation is the
+	// canonical one is established behaviourally by the acceptor on every discovered triple.
+	var trios []string
+	for _, t := range facts {
+		trios = append(trios, t.Key)
 	}
-	b.WriteString("]\n\nend ScVerif.Generated.C14\n")
+	b.WriteString("def methodTrios : List String := " + leanList(trios) + "\n")
+	b.WriteString("\nend ScVerif.Generated.C14\n")
+
 	return os.WriteFile(path, []byte(b.String()), 0o644)
 }
